@@ -561,6 +561,63 @@ def dispatch_tokens(ctx: Ctx) -> Dict[str, Tuple[Optional[str], int]]:
     return out
 
 
+def dispatch_token_sets(ctx: Ctx) -> Dict[str, frozenset]:
+    """simplifier function -> the operator tokens it can be dispatched for (from the kind tests of the dispatchers)"""
+    from .terms import flat_guards
+    ev = rewrite_eval(ctx)
+    sets = kind_token_sets(ctx)
+    out: Dict[str, frozenset] = {}
+    for dname in ('_simplify_unary_operator', '_simplify_binary_operator', '_simplify_arithmetic'):
+        fi = ctx.model.func('hpl.rewrite', dname, 'R7')
+        pc = ctx.ev.ann_class(fi.node.args.args[0].annotation, fi.module)
+        p = Sym(fi.params()[0], pc.name if pc else None)
+        for o in ev.run(fi, {fi.params()[0]: p}):
+            if o.kind != 'return':
+                continue
+            for g2, leaf in alternatives(o.value):
+                k = _fkey(leaf)
+                if k is None or not k.startswith('hpl.rewrite:_simplify') or len(leaf.args) != 1:
+                    continue
+                name = k.split(':')[1]
+                allowed = None
+                for t, pol in flat_guards(tuple(o.guards) + tuple(g2)):
+                    ts = None
+                    if isinstance(t, Attr) and isinstance(t.base, Attr) and t.base.name == 'operator' and t.name in sets:
+                        ts = sets[t.name]
+                    elif isinstance(t, Op) and t.op == '==' and len(t.args) == 2 and isinstance(t.args[0], Attr) and t.args[0].name == 'token' and isinstance(t.args[1], Const):
+                        ts = frozenset({t.args[1].value})
+                    elif isinstance(t, Op) and t.op == 'in' and len(t.args) == 2 and isinstance(t.args[0], Attr) and t.args[0].name == 'token' and type(t.args[1]).__name__ == 'TupleT' \
+                            and all(isinstance(x, Const) for x in t.args[1].items):
+                        ts = frozenset(x.value for x in t.args[1].items)
+                    if ts is not None and pol:
+                        allowed = ts if allowed is None else allowed & ts
+                if allowed:
+                    out[name] = (out.get(name, frozenset()) | allowed)
+    return out
+
+
+def _param_tokens(ctx: Ctx, param: Term, o: Outcome, universe: frozenset) -> List[str]:
+    """the operator tokens of the input that are consistent with the kind tests this path made on it"""
+    from .terms import flat_guards
+    sets = kind_token_sets(ctx)
+    cur = set(universe)
+    for t, pol in list(flat_guards(o.guards)) + [(a, True) for a in o.asserts]:
+        while isinstance(t, Op) and t.op == 'not' and len(t.args) == 1:
+            t, pol = t.args[0], not pol
+        ts = None
+        if isinstance(t, Attr) and isinstance(t.base, Attr) and t.base.name == 'operator' and canon(t.base.base) == param and t.name in sets:
+            ts = sets[t.name]
+        elif isinstance(t, Op) and t.op in ('==', 'in') and len(t.args) == 2 and isinstance(t.args[0], Attr) and t.args[0].name == 'token' \
+                and isinstance(t.args[0].base, Attr) and t.args[0].base.name == 'operator' and canon(t.args[0].base.base) == param:
+            if t.op == '==' and isinstance(t.args[1], Const):
+                ts = frozenset({t.args[1].value})
+            elif t.op == 'in' and type(t.args[1]).__name__ == 'TupleT' and all(isinstance(x, Const) for x in t.args[1].items):
+                ts = frozenset(x.value for x in t.args[1].items)
+        if ts is not None:
+            cur = (cur & ts) if pol else (cur - ts)
+    return sorted(cur)
+
+
 def _check_step(r: RuleResult, sc: 'Schema', name: str, fi: FunctionInfo, o: Outcome, gtxt: str, param: Term, undecided: List[str], stats: Dict[str, int]):
     key = f'{name}: [{gtxt[-110:]}] => {str(o.value)[:70]}'
     if canon(o.value) == param:
@@ -635,6 +692,7 @@ def R7(ctx: Ctx) -> RuleResult:
     r = RuleResult('R7', 'local identities of the simplifier: every guarded rewrite step of the leaf simplification functions denotes the same value as its input in every assignment of a finite model (numbers -2..2 and 1/2, truth values) that satisfies its guards')
     ev = rewrite_eval(ctx)
     disp = dispatch_tokens(ctx)
+    disp_sets = dispatch_token_sets(ctx)
     units = {n: v for n, v in disp.items() if n not in ('_simplify_arithmetic', '_simplify_binary_operator', '_simplify_unary_operator')}
     if len(units) < 8:
         raise AnalysisError('R7', f'only {len(units)} leaf simplifier functions found through the dispatchers: {sorted(units)}')
@@ -658,11 +716,19 @@ def R7(ctx: Ctx) -> RuleResult:
             sets = [(x, sorted(k[1] - sc0.nottok.get(x, set()))) for x, k in sc0.kind.items() if k[0] == 'bin-set']
             combos = list(itertools.product(*[ts for _, ts in sets])) if sets else [()]
             gtxt = guards_repr(norm_guards(o.guards))
-            for combo in combos[:16]:
-                sc = Schema(ctx, param, tok, arity, o)
-                for (x, _), t_ in zip(sets, combo):
-                    sc.kind[x] = ('bin', t_)
-                _check_step(r, sc, name, fi, o, gtxt + (f' {{{",".join(combo)}}}' if combo else ''), param, undecided, stats)
+            # the operator of the input itself, when no test of this path fixes it: every token the function is
+            # dispatched for that the path's tests leave possible
+            in_toks: List[Optional[str]] = [None]
+            if sc0.token is None and canon(o.value) != param and name in disp_sets:
+                in_toks = _param_tokens(ctx, param, o, disp_sets[name]) or [None]
+            for in_tok in in_toks[:8]:
+                for combo in combos[:16]:
+                    sc = Schema(ctx, param, tok, arity, o)
+                    if in_tok is not None:
+                        sc.token = in_tok
+                    for (x, _), t_ in zip(sets, combo):
+                        sc.kind[x] = ('bin', t_)
+                    _check_step(r, sc, name, fi, o, gtxt + (f' input {in_tok}' if in_tok else '') + (f' {{{",".join(combo)}}}' if combo else ''), param, undecided, stats)
             continue
     r.counts['leaf simplifier functions'] = len(units)
     r.counts['assignments checked'] = stats['models']
